@@ -47,6 +47,7 @@ type C06Scenario struct {
 	Msgs   []C06Msg        `json:"msgs"`
 	Server refsmtpd.Config `json:"server"`
 	Sched  uint64          `json:"sched"`
+	DSN    bool            `json:"dsn,omitempty"` // the Client asks for delivery status notifications
 }
 
 type c06 struct{}
@@ -69,6 +70,10 @@ func c06Addr(r *sim.Rand, tok, field string, n int) AddrSpec {
 		local = fmt.Sprintf("%s.ü-%s-%d", field, tok, n)
 	}
 	if r.Chance(1, 10) {
+		// the "percent hack" and other atext that means something to a formatter
+		local = fmt.Sprintf("%s%%%s-%d", field, sim.Pick(r, []string{"emea", "s", "d", "v", "!", "%"}), n) + "-" + tok
+	}
+	if r.Chance(1, 10) {
 		// quoted-string local parts with the two characters that need a quoted-pair
 		local = fmt.Sprintf("%s%s%s-%d", field, sim.Pick(r, []string{`\\`, `\\x`, `"`, `\\"`, `a\\b c`}), tok, n)
 	}
@@ -86,6 +91,12 @@ func (p *c06) Gen(seed uint64, i int, tier string) (any, bool) {
 	r := sim.NewRand(sim.Derive(seed, 6, uint64(i)))
 	sc := &C06Scenario{Sched: sim.Derive(seed, 6, uint64(i), 1)}
 	sc.Server.Caps = []string{"8BITMIME", "SMTPUTF8"}
+	if r.Chance(1, 3) {
+		sc.Server.Caps = append(sc.Server.Caps, "DSN")
+	}
+	if r.Chance(1, 3) {
+		sc.DSN = true
+	}
 	nm := 1 + r.Intn(2)
 	cnt := 0
 	for m := 0; m < nm; m++ {
@@ -377,7 +388,11 @@ func (p *c06) Exec(t *testing.T, scAny any) Outcome {
 					renders[mi] = data
 				}
 			}
-			c, err := BuildClient(ClientCfg{TLSPolicy: "none"}, env.Dial, nil)
+			ccfg := ClientCfg{TLSPolicy: "none"}
+			if sc.DSN {
+				ccfg.DSN, ccfg.DSNNotify = true, []string{"FAILURE", "DELAY"}
+			}
+			c, err := BuildClient(ccfg, env.Dial, nil)
 			if err != nil {
 				infra = err.Error()
 				return
